@@ -15,7 +15,7 @@ def gen(ctx, name, alphabet, labels, maxn, filters):
     res = vlib.tlc(f"C15-gen-{name}", "Gen_Filter", cfg, timeout=3000)
     if res["violated"]:
         raise vlib.ToolError(f"Gen_Filter {name}: meta-property {res['violated']} fails on the specification")
-    cases = vlib.cases_from(res["out"])
+    cases = vlib.nonempty(vlib.cases_from(res["out"]), "Gen_Filter " + name)
     ctx.add_tlc(res, f"Gen_Filter {name}: {len(cases)} sentences x filters {filters}; OnlyRuleBoundariesChange and Idempotent hold")
     return cases
 
